@@ -668,12 +668,12 @@ theorem C06_int_draws_dur_steps (t : TP Rat) (hk : t.kind = .dur) {u pu : String
     (hu : t.unit = some u) (hpu : t.parentUnit = some pu) (hs : t.selfDt = some s) (hp : t.parentDt = some p)
     (hlu : unitLen u = some lu) (hlpu : unitLen pu = some lpu) (hp0 : p ≠ 0) (l : List Int) :
     (postprocess ratOps t (.ints l)).2 = .ok () ∧
-    (postprocess ratOps t (.ints l)).1.values = some (.array (l.map (fun i => (i : Rat) * ((s / p) * (lu / lpu))))) ∧
+    (postprocess ratOps t (.ints l)).1.values = some (.array (l.map (fun (i : Int) => (i : Rat) * ((s / p) * (lu / lpu))))) ∧
     ∀ i : Int, ((i : Rat) * ((s / p) * (lu / lpu))) * (p * lpu) = (i : Rat) * (s * lu) := by
-  obtain ⟨h1, h2⟩ := C06_dist_wrapping_scales t hk hu hpu hs hp hlu hlpu hp0 (l.map (fun i => ((i : Int) : Rat)))
+  obtain ⟨h1, h2⟩ := C06_dist_wrapping_scales t hk hu hpu hs hp hlu hlpu hp0 (l.map (fun (i : Int) => (i : Rat)))
   refine ⟨?_, ?_, fun i => ?_⟩
   · simpa [postprocess, Draws.toCarrier, ratOps] using h1
-  · have : (postprocess ratOps t (.ints l)) = scaleDraws ratOps t (l.map (fun i => ((i : Int) : Rat))) := by
+  · have : (postprocess ratOps t (.ints l)) = scaleDraws ratOps t (l.map (fun (i : Int) => (i : Rat))) := by
       simp [postprocess, Draws.toCarrier, ratOps]
     rw [this, h2, List.map_map]; rfl
   · exact (C06_dur_steps t hk hu hpu hs hp hlu hlpu hp0 true).2.2 _
@@ -684,11 +684,11 @@ theorem C06_int_draws_rate_steps (t : TP Rat) (hk : t.kind = .rate) {u pu : Stri
     (hu : t.unit = some u) (hpu : t.parentUnit = some pu) (hs : t.selfDt = some s) (hp : t.parentDt = some p)
     (hlu : unitLen u = some lu) (hlpu : unitLen pu = some lpu) (hp0 : p ≠ 0) (hs0 : s ≠ 0) (l : List Int) :
     (postprocess ratOps t (.ints l)).2 = .ok () ∧
-    (postprocess ratOps t (.ints l)).1.values = some (.array (l.map (fun i => (i : Rat) / ((s / p) * (lu / lpu))))) ∧
+    (postprocess ratOps t (.ints l)).1.values = some (.array (l.map (fun (i : Int) => (i : Rat) / ((s / p) * (lu / lpu))))) ∧
     ∀ i : Int, ((i : Rat) / ((s / p) * (lu / lpu))) / (p * lpu) = (i : Rat) / (s * lu) := by
-  have hpp : (postprocess ratOps t (.ints l)) = updateCached ratOps { t with v := .array (l.map (fun i => ((i : Int) : Rat))) } true true := by
+  have hpp : (postprocess ratOps t (.ints l)) = updateCached ratOps { t with v := .array (l.map (fun (i : Int) => (i : Rat))) } true true := by
     simp [postprocess, scaleDraws, Draws.toCarrier, ratOps]
-  rw [hpp, updateCached_rate (t := { t with v := .array (l.map (fun i => ((i : Int) : Rat))) }) hk hu hpu hs hp hlu hlpu hp0 hs0 true]
+  rw [hpp, updateCached_rate (t := { t with v := .array (l.map (fun (i : Int) => (i : Rat))) }) hk hu hpu hs hp hlu hlpu hp0 hs0 true]
   refine ⟨rfl, ?_, fun i => ?_⟩
   · simp only [Val.map, List.map_map]; rfl
   · exact (C06_rate_steps t hk hu hpu hs hp hlu hlpu hp0 hs0 true).2.2 _
